@@ -163,6 +163,11 @@ pub assume_specification[ <Path as ::std::borrow::ToOwned>::to_owned ](p: &Path)
         pbv(r) == pv(p),
 ;
 
+pub assume_specification[ Path::to_path_buf ](p: &Path) -> (r: PathBuf)
+    ensures
+        pbv(r) == pv(p),
+;
+
 pub assume_specification[ <PathBuf as Clone>::clone ](p: &PathBuf) -> (r: PathBuf)
     ensures
         pbv(r) == pbv(*p),
@@ -884,6 +889,19 @@ pub mod std {
             ;
 
             spec fn seek_ok(&self, before: Self, after: Self, pos: SeekFrom, r: Result<u64>) -> bool;
+
+            /// `rewind()` is `seek(SeekFrom::Start(0))` with the position dropped (the provided method of std).
+            fn rewind(&mut self, Tracked(w): Tracked<&mut World>) -> (r: Result<()>)
+                requires
+                    old(w).inv(),
+                ensures
+                    final(w).inv(),
+                    final(w).same_fs(*old(w)),
+                    final(w).kept(*old(w)) && final(w).listed == old(w).listed && final(w).published == old(w).published && final(w).now == old(w).now,
+                    final(w).opens == old(w).opens && final(w).steps == old(w).steps + 1,
+                    final(w).hard_faults == old(w).hard_faults + if r.is_err() { 1nat } else { 0nat },
+                    exists|n: u64| old(self).seek_ok(*old(self), *final(self), SeekFrom::Start(0), if r.is_ok() { Ok::<u64, Error>(n) } else { Err::<u64, Error>(err_of(r)) }),
+            ;
         }
 
         /// What `copy` leaves in the destination: the bytes before its offset, then the source from its offset on.
@@ -984,6 +1002,11 @@ pub mod std {
 
             #[verifier::external_body]
             fn seek(&mut self, pos: SeekFrom, Tracked(w): Tracked<&mut World>) -> (r: Result<u64>) {
+                unimplemented!()
+            }
+
+            #[verifier::external_body]
+            fn rewind(&mut self, Tracked(w): Tracked<&mut World>) -> (r: Result<()>) {
                 unimplemented!()
             }
         }
@@ -1183,7 +1206,7 @@ pub mod std {
                 requires
                     old(w).inv(),
                     old(w).inodes.contains_key(self.ino()),
-                    !perm.writable() || forall|q: PathV| #[trigger] old(w).files.contains_key(q) && old(w).files[q] == self.ino() ==> !old(w).in_cache_namespace(q),   // @L C03 C19:write-permission-is-never-added-to-a-visible-file
+                    !perm.writable() || forall|q: PathV| #[trigger] old(w).files.contains_key(q) && old(w).files[q] == self.ino() ==> !old(w).in_cache_namespace(q),   // @L C03 C19 C02:write-permission-is-never-added-to-a-visible-file
                     old(w).not_ro_linked(self.ino()),   // @L C15:nothing-under-a-read-only-root-is-ever-re-moded
                 ensures
                     final(w).stepped(*old(w)),
@@ -1524,7 +1547,7 @@ pub mod std {
         pub fn set_permissions(p: &Path, perm: Permissions, Tracked(w): Tracked<&mut World>) -> (r: std::io::Result<()>)
             requires
                 old(w).inv(),
-                old(w).owned.contains(pv(p)) && !old(w).under_ro(pv(p)) && (old(w).private_inode(pv(p)) || !perm.writable()),   // @L C03 C19 C15:write-permission-is-never-added-to-a-visible-file
+                old(w).owned.contains(pv(p)) && !old(w).under_ro(pv(p)) && (old(w).private_inode(pv(p)) || !perm.writable()),   // @L C03 C19 C15 C02:write-permission-is-never-added-to-a-visible-file
             ensures
                 final(w).stepped(*old(w)),
                 final(w).inv(),
